@@ -137,6 +137,29 @@ def check_digests(ctx, pmt, rng):
                 ctx.violation("digest-equals-independent", "a computed checksum equals the standard digest of the file's full content",
                               case, observed=probs, expected=want)
             ctx.case_done(case, nontrivial=size == 0 or size > MIB - 2)
+        # the same path rewritten in place with other content of the SAME size and the old mtime restored, reached through
+        # another spelling of the path: the digest must be that of the content that is there NOW
+        if size > 0 and si % 3 == 0:
+            st = os.stat(path)
+            data2 = bytes((b + 1) % 256 for b in data[:1024]) + data[1024:]
+            with open(path, "r+b") as f:
+                f.write(data2)
+            os.utime(path, ns=(st.st_atime_ns, st.st_mtime_ns))
+            for alg in algs[:4]:
+                want2 = hashlib.new(alg, data2).hexdigest().lower()
+                try:
+                    ti = pmt.TreeInfo()
+                    ti.checksums.add("./dir%d//file-%d.bin" % (si, size), alg, None, root)
+                    got2 = list(ti.checksums.checksums.get(rel, [None, None]))[1]
+                except Exception as e:
+                    got2 = "raised %s" % type(e).__name__
+                bad = got2 != want2
+                ctx.monitor("digest-of-current-content", fired=bad)
+                ctx.count("rewritten-in-place")
+                if bad:
+                    ctx.violation("digest-of-current-content", "a computed checksum is the digest of the file's content at the time it is computed "
+                                  "(not of what the file held when it was hashed before)", {"size": size, "algorithm": alg, "rewritten": True},
+                                  observed=got2, expected=want2)
         os.unlink(path)
     ctx.sample({"digest-case": {"sizes": sizes, "algorithms": algs[:6]}})
 
